@@ -1,5 +1,6 @@
 """C01 Transition selection follows the documented step semantics."""
 import ast
+import re
 
 from .. import q
 from ..cfg import guards, guard_atoms
@@ -583,6 +584,13 @@ def rules_groupby(run, rid='C01.6'):
                 good = q.unparse(strip_cast(recv.args[0])) == '%s(%s)' % (key, v) and isinstance(recv.args[1], ast.List) and not recv.args[1].elts
             run.check(good, r, fi.short, 'group label is key(item)', 'the group must be selected by key(item)', ap)
     rets = [n for n in q.walk(F, False) if isinstance(n, ast.Return)]
+    # fewer than two groups need no sorting: `return list(groups.items())` under len(groups) < 2 is the sorted result
+    def few(x):
+        v_ = q.unparse(strip_cast(x.value)) if x.value is not None else ''
+        m_ = re.match(r'^(?:list\()?(\w+)\.items\(\)\)?$', v_)
+        return bool(m_) and any((a[0] == '<' and a[1] == 'len(%s)' % m_.group(1) and a[2] == '2') or (a[0] == '<=' and a[1] == 'len(%s)' % m_.group(1) and a[2] == '1')
+                                or (a[0] == 'falsy' and a[1] == m_.group(1)) for a in guard_atoms(x))
+    rets = [x for x in rets if not few(x)]
     run.check(len(rets) == 1, r, fi.short, 'single return', 'expected a single return', F)
     for rt in rets:
         v = strip_cast(rt.value)
